@@ -79,7 +79,7 @@ def unit_long_rows(a):
 
 # ------------------------------------------------------------------ unicode rows
 ROW_CHARS = st.one_of(
-    st.sampled_from(["\ufdd0", "\ufdd0", "\ufdd1", "\u202a", "\u202b", "\u202c", "\u202d", "\u202e", "\u2066", "\u2069", "\u200e", "\u200f", "\u061c", "\ue000", "\x00", "\ufffe",
+    st.sampled_from(["\uf8ff", "\uf8fe", "\ue001", "\uffff", "\x01", "\x1f", "\x7f", "\U0010ffff", "\U000f0000", "\ufdd0", "\ufdd0", "\ufdd1", "\u202a", "\u202b", "\u202c", "\u202d", "\u202e", "\u2066", "\u2069", "\u200e", "\u200f", "\u061c", "\ue000", "\x00", "\ufffe",
                      "|", "|", "\\", "\\", "n", " ", " ", "\t", "\xa0", "　", "\x0b", "\x0c", "\r", "x", "é",
                      "\U0001F600", "\x85", " ", "\x1c", " ", "​", "﻿"]),
     st.characters(blacklist_categories=["Cs"], blacklist_characters="\n"),
